@@ -93,4 +93,4 @@ def build_ref(variant="plain"):
 
 def ref_harness(variant, name, sources, extra_flags=""):
     objs = build_ref(variant)
-    return build.harness(variant, name, sources, extra_flags=extra_flags, libs="-lgfortran", objects=objs)
+    return build.harness(variant, name, sources, extra_flags=extra_flags, libs="-lgfortran -ldl", objects=objs)
